@@ -13,6 +13,12 @@ def fe_val(limbs):
     return sum(int(l) << (51 * i) for i, l in enumerate(limbs))
 
 
+def limbs_of(v):
+    """the canonical (fully reduced, 51-bit) limb vector of v mod p"""
+    v %= P
+    return [(v >> (51 * i)) & (2**51 - 1) for i in range(5)]
+
+
 def parse_limbs(s):
     return [int(x) for x in s.split(",")]
 
